@@ -266,3 +266,58 @@ Example C14_full_refund_reachable :
   (run init ts).2 = [EvContrib 0 1 5; EvContrib 0 2 3; EvRefund 0 1 1 5; EvRefund 0 2 2 3] /\
   bal (run init ts).1 1%N = 100 /\ bal (run init ts).1 2%N = 100.
 Proof. vm_compute. repeat split; reflexivity. Qed.
+
+(* ---- (7) relaunch from an exported state (olfullnode save_state -> genesis -> LoadProposals).
+   load ∘ dump preserves every proposal record, its fund records and its votes (validator, power, OPINION): only the
+   deadlines of active proposals are re-based on the exported version, as the dump does ---- *)
+Theorem C14_load_dump_preserves : forall s ver bals pool, FundsInv s -> WInv s ->
+  forall id, match g_props s !! id with
+             | Some p => exists r, g_props (reload s ver bals pool) !! id = Some r /\ same_record ver p r
+             | None => g_props (reload s ver bals pool) !! id = None
+             end.
+Proof. exact reload_preserves. Qed.
+Print Assumptions C14_load_dump_preserves.
+
+(* every history, relaunches included (any number, at any point): all invariants hold in the final state — the
+   lifecycle invariant, the agreement of tally and store, total = sum of non-negative funder records, distinct
+   validators / funders per proposal — and the stage of no proposal ever moved backwards, also across relaunches *)
+Theorem C14_relaunch_keeps_everything : forall hs, Forall sane_hop hs ->
+  AllInv (hrun init hs).1 /\ forall id, (rank_of init id <= rank_of (hrun init hs).1 id)%nat.
+Proof. intros hs H. exact (hrun_allinv hs init H AllInv_init). Qed.
+Print Assumptions C14_relaunch_keeps_everything.
+
+Theorem C14_relaunch_monotone_from : forall hs s, Forall sane_hop hs -> AllInv s ->
+  AllInv (hrun s hs).1 /\ forall id, (rank_of s id <= rank_of (hrun s hs).1 id)%nat.
+Proof. exact hrun_allinv. Qed.
+
+(* so the theorems about good states apply after any number of relaunches, e.g.: *)
+Theorem C14_config_only_for_passed_any_state : forall s e id s' ev id', Good s ->
+  h_finalize s e id = Some (s', ev) -> EvConfig id' ∈ ev ->
+  id' = id /\ exists p, g_props s !! id = Some p /\ p_type p = TConfig /\ p_store p = SPassed /\
+    p_outcome p = OCompletedYes /\ tally (p_votes p) (p_pass p) = RPassed /\ rank_of s' id = 4%nat.
+Proof. exact finalize_config_passed. Qed.
+
+Theorem C14_refund_in_full_any_state : forall s id f ben p cur, Inv s -> FundsInv s ->
+  g_props s !! id = Some p -> refundable (p_outcome p) = true -> funded_visible (g_blk s) p f = true ->
+  alookup f (p_indiv p) = Some cur -> 0 < cur ->
+  exists s', h_withdraw s id f cur ben = Some (s', [EvRefund id f ben cur]).
+Proof. exact refund_in_full_inv. Qed.
+
+(* Example with partial votes: two of three validators have voted yes (66% < 67%: undecided) when the state is
+   exported; the import keeps the two opinions; the third yes on the new chain passes the proposal and it is
+   finalised there *)
+Definition wopts67 : opts := mkOpts 1 10 5 67 (mkDist 180000 180000 100000 180000 180000) (mkDist 180000 180000 100000 180000 180000).
+Example C14_relaunch_keeps_partial_votes :
+  let t := wtx3 wopts67 in
+  let hs1 := [HOp (t (OAdjust 1%N 100)); HOp (t (OAdjust 2%N 100));
+              HOp (t (OBegin 1)); HOp (t (OCreate 0%N TGeneral 1%N 5 9 14 10 67 true)); HOp (t (OFund 0%N 2%N 5)); HOp (t OEnd);
+              HOp (t (OBegin 2)); HOp (t (OVote 0%N 10%N OpYes)); HOp (t (OVote 0%N 11%N OpYes)); HOp (t OEnd)] in
+  let s1 := (hrun init hs1).1 in
+  let s2 := (hstep s1 (HReload 2 [(1%N, 95); (2%N, 95)] 0)).1.1 in
+  (fun p => (p_store p, p_status p, p_votes p, p_total p, p_indiv p, p_vdl p)) <$> (g_props s1 !! 0%N)
+    = Some (SActive, StVoting, [mkVote 10 100 OpYes; mkVote 11 100 OpYes; mkVote 12 100 OpUnknown], 10, [(1%N, 5); (2%N, 5)], 6) /\
+  (fun p => (p_store p, p_status p, p_votes p, p_total p, p_indiv p, p_vdl p)) <$> (g_props s2 !! 0%N)
+    = Some (SActive, StVoting, [mkVote 10 100 OpYes; mkVote 11 100 OpYes; mkVote 12 100 OpUnknown], 10, [(1%N, 5); (2%N, 5)], 4) /\
+  let s3 := (hrun s2 [HOp (t (OBegin 1)); HOp (t (OVote 0%N 12%N OpYes)); HOp (t OEnd); HOp (t (OBegin 2)); HOp (t OEnd)]).1 in
+  (fun p => (p_store p, p_outcome p)) <$> (g_props s3 !! 0%N) = Some (SFinalized, OCompletedYes).
+Proof. vm_compute. repeat split; reflexivity. Qed.
